@@ -227,12 +227,15 @@ class Gen:
     def dict_value(self, kind, depth, nkeys=None):
         rng = self.rng
         n = nkeys if nkeys is not None else rng.choice([0, 1, 1, 2, 2, 3, 3, 4, 5, 7, 12])
-        mode = rng.choice(["str", "str", "str", "mixed", "nonstr"])
+        # "strsub": every key an instance of a str subclass (an Enum member with a str mixin is one): such a dict is no TypedDict
+        mode = rng.choice(["str", "str", "str", "mixed", "nonstr", "strsub"])
         keys = []
         strs = list(self.strs)
         rng.shuffle(strs)
         for i in range(n):
-            if mode == "str" or (mode == "mixed" and rng.random() < 0.5):
+            if mode == "strsub":
+                keys.append(("inst", str(self.tbl.of(fx.MyStr))))
+            elif mode == "str" or (mode == "mixed" and rng.random() < 0.5):
                 keys.append(("str", Q(strs[i % len(strs)] + ("" if i < len(strs) else str(i)))))
             else:
                 keys.append(rng.choice([("inst", INT), ("inst", INT), ("inst", FLOAT), ("inst", rng.choice(self.plain)),
